@@ -42,7 +42,9 @@ var c16Map = reg("C16", "c16-map", checkC16)
 var c16Bad = reg("C16", "c16-malformed", checkC16Bad)
 
 var jsonKeys = []string{"a", "b", "a", "", "key with space", "<&>", "é", "#obj", "#arr", "x-y", "0", "a.b", "日本", "{", "}", "[", "]", ",", ":", "dc:title", "a:b", "xml:lang", "xmlns", "xmlns:p", "p:", ":q", "a:b:c", "@id", "text()", "*", "..", "\ufffd", "\ufeffk", "k\u0000"}
-var jsonStrs = []string{"", "a", "AK", "x y", "é", "𝄞", "line\nbreak", "tab\t", "quote\"", "back\\slash", "</x>", "null", "true", "1", " ", "{", "}", "[", "]", ",", ":", "[]", "{}", "\ufffd", "a\ufffdb", "\ufeff", "\u2028", "\x7f", "\u0000x"}
+var jsonStrs = []string{"", "a", "AK", "x y", "é", "𝄞", "line\nbreak", "tab\t", "quote\"", "back\\slash", "</x>", "null", "true", "1", " ", "{", "}", "[", "]", ",", ":", "[]", "{}", "\ufffd", "a\ufffdb", "\ufeff", "\u2028", "\x7f", "\u0000x",
+	// what a comment-stripping or string-skipping pre-pass trips over
+	"C:\\", "\\", "\\\\", "a//b", "http://x/y", "src/*/testdata/*/in.json", "/* c */", "// c", "*/", "\\\"", "#", "\\n"}
 var jsonNums = []string{"0", "-0", "1", "-1", "1.5", "1e3", "1E+3", "1e-7", "12345678901234567890", "0.1", "5e-324", "1.7976931348623157e308", "100", "1.0", "2.50", "3.14", "2.71828", "1e21", "123456789012345678", "0.000001", "-12.5e-3"}
 
 func genJval(t *rapid.T, depth int) *jval {
